@@ -502,7 +502,9 @@ type SeriesSketchesResponse struct {
 }
 
 func (r *SeriesSketchesResponse) MarshalBinary() ([]byte, error) {
-	var pb internal.SeriesSketchesResponse
+	// Sketch and TSSketch are required fields: an error response carries none, and
+	// must still be encodable (empty sketches are skipped by UnmarshalBinary).
+	pb := internal.SeriesSketchesResponse{Sketch: []byte{}, TSSketch: []byte{}}
 	if r.Sketch != nil {
 		buf, err := r.Sketch.MarshalBinary()
 		if err != nil {
@@ -581,7 +583,9 @@ type MeasurementsSketchesResponse struct {
 }
 
 func (r *MeasurementsSketchesResponse) MarshalBinary() ([]byte, error) {
-	var pb internal.MeasurementsSketchesResponse
+	// Sketch and TSSketch are required fields: an error response carries none, and
+	// must still be encodable (empty sketches are skipped by UnmarshalBinary).
+	pb := internal.MeasurementsSketchesResponse{Sketch: []byte{}, TSSketch: []byte{}}
 	if r.Sketch != nil {
 		buf, err := r.Sketch.MarshalBinary()
 		if err != nil {
